@@ -503,6 +503,39 @@ def fam_bound(tier, rng):
     for cutpos in range(len(t) - 40, len(t), 3):
         for pol in ("b0", "b1", "b2", "b3", "b4", "b5", "b6"):
             ops.append(f"visit tx {pol} " + hx(t[:cutpos] + b"\xfd\x01\x00"))
+    # a count in the five-byte form (65536 and up) declared, but only a few elements present: the elements that are
+    # there are still delivered, and a Break on one of them still wins over the truncation
+    for n in (65536, 65537, 0x01000000, 0xFFFFFFFF, 0x100000000, 2 ** 64 - 1):
+        few = 6
+        outs = cs(n) + b"".join((struct.pack("<Q", 7 + i) + (b"\x00" if i % 2 else b"\x01\x51")) for i in range(few))
+        ins = cs(n) + b"".join(pat.take(32) + struct.pack("<I", i) + b"\x00" + struct.pack("<I", i) for i in range(few))
+        wit = cs(n) + b"".join(cs(i % 3) + bytes([9] * (i % 3)) for i in range(few))
+        for pol in ("n", "b0", "b3", "b5", "b6"):
+            ops.append(f"visit txouts {pol} " + hx(outs))
+            ops.append(f"visit txins {pol} " + hx(ins))
+            ops.append(f"visit tx {pol} " + hx(struct.pack("<i", 1) + ins))
+            ops.append(f"visit tx {pol} " + hx(struct.pack("<i", 1) + cs(1) + pat.take(36) + b"\x00" + bytes(4) + outs))
+        ops.append("visit witness n " + hx(wit))
+        ops.append(f"visit witnesses:{n} b2 " + hx(b"\x00\x01\x01\xaa\x00\x00"))
+        ops.append("visit block b3 " + hx(header(pat) + cs(n) + bytes([1, 0, 0, 0, 0, 1, 0, 0, 0, 0, 0, 0]) * 3))
+    # a long script / element FOLLOWED by further elements (offsets after a five-byte length prefix)
+    for l in (65535, 65536):
+        body = bytes((i * 7 + 3) % 256 for i in range(l))
+        outs = cs(3) + struct.pack("<Q", 1) + cs(l) + body + struct.pack("<Q", 2) + cs(2) + b"\x51\x52" + struct.pack("<Q", 3) + b"\x00"
+        ops.append("visit txouts n " + hx(outs))
+        ops.append("visit txouts b1 " + hx(outs))
+        ops.append("redb txouts " + hx(outs))
+        ins = cs(2) + pat.take(36) + cs(l) + body + struct.pack("<I", 5) + pat.take(36) + b"\x00" + struct.pack("<I", 6)
+        ops.append("visit txins n " + hx(ins))
+        ops.append("visit tx n " + hx(struct.pack("<i", 2) + ins + outs + struct.pack("<I", 9)))
+    # a segwit transaction cut at every position of its witness section and lock time, under every Break position
+    t = Tx(2, [(pat.take(32), 1, b"\x51", 0xFFFFFFFE), (pat.take(32), 2, b"", 7), (pat.take(32), 3, b"", 8)], [(9, b"\x51")],
+           [[b"\x01\x02"], [], [b"", b"\x03"]], 5, True).enc()
+    wstart = len(t) - 4 - (1 + 3) - 1 - (1 + 1 + 2)
+    for cut in range(wstart - 2, len(t) + 1):
+        for k in range(0, 9):
+            ops.append(f"visit tx b{k} " + hx(t[:cut]))
+        ops.append("visit tx n " + hx(t[:cut]))
     # outpoints: null / coinbase-like indices with zero and non-zero ids; ordering pairs that differ only in the index
     for txid in (bytes(32), bytes(range(1, 33)), bytes([0xFF] * 32)):
         for vout in (0, 1, 255, 256, 257, 65535, 65536, 0x7FFFFFFF, 0xFFFFFFFE, 0xFFFFFFFF):
